@@ -69,9 +69,11 @@ def _idxmax(fn, target_pred):
     if not (isinstance(c, ast.Call) and isinstance(c.func, ast.Attribute) and isinstance(c.func.value, ast.Name)
             and not c.args and not c.keywords):
         raise U(f"{fn.name}: best index is not <series>.idxmax()")
-    if c.func.attr not in ("idxmax", "argmax"):
+    # pandas `Series.idxmax()` / `.argmax()`: label / position of the FIRST maximum (the curves carry a RangeIndex, so both are the
+    # position); `.idxmin()` / `.argmin()`: of the FIRST minimum.  Which one is emitted (`bestIsIdxmax` / `eoBestIsIdxmax`).
+    if c.func.attr not in ("idxmax", "argmax", "idxmin", "argmin"):
         raise U(f"{fn.name}: best index uses .{c.func.attr}()")
-    return a[0].targets[0].id, c.func.value.id
+    return a[0].targets[0].id, c.func.value.id, c.func.attr in ("idxmax", "argmax")
 
 
 def _group_loop(fn):
@@ -191,7 +193,7 @@ def _simple(tree):
     if not (isinstance(init, ast.BinOp) and isinstance(init.op, ast.Mult) and _self(init.right, "_x_grid")):
         raise U("simple: start value of the overall curve is not <c> * self._x_grid")
     c0 = _int(init.left, "overall start coefficient")
-    ib, series = _idxmax(fn, lambda t: isinstance(t, ast.Name) and t.id == "i_best")
+    ib, series, is_max = _idxmax(fn, lambda t: isinstance(t, ast.Name) and t.id == "i_best")
     if series != overall:
         raise U("simple: idxmax is not taken of the overall curve")
     # best_interpolation = self._tradeoff_curve[key].iloc[i_best]
@@ -205,7 +207,7 @@ def _simple(tree):
     xb = _walk_assign(fn, lambda t: _self(t, "_x_best"))
     if len(xb) != 1 or ast.unparse(xb[0].value) != f"self._x_grid[{ib}]":
         raise U("simple: self._x_best is not self._x_grid[i_best]")
-    return {"lo": lo, "hi": hi, "extra": extra, "freq": freq, "acc": acc, "c0": c0}
+    return {"lo": lo, "hi": hi, "extra": extra, "freq": freq, "acc": acc, "c0": c0, "is_max": is_max}
 
 
 def _eo(tree):
@@ -260,23 +262,26 @@ def _eo(tree):
     if len(ym) != 1:
         raise U("EO: self._y_min is not assigned exactly once")
     c = ym[0].value
-    if not (isinstance(c, ast.Call) and isinstance(c.func, ast.Attribute) and c.func.attr in ("amin", "min") and len(c.args) == 1
+    if not (isinstance(c, ast.Call) and isinstance(c.func, ast.Attribute) and len(c.args) == 1
             and isinstance(c.args[0], ast.Name) and c.args[0].id == yv[0].targets[0].value.id
             and [(k.arg, getattr(k.value, "value", None)) for k in c.keywords] == [("axis", 1)]):
         # np.amin(a, axis) positionally
         if isinstance(c, ast.Call) and len(c.args) == 2 and not c.keywords:
             c = ast.Call(func=c.func, args=c.args[:1], keywords=[ast.keyword(arg="axis", value=c.args[1])])
-    if not (isinstance(c, ast.Call) and isinstance(c.func, ast.Attribute) and c.func.attr in ("amin", "min") and len(c.args) == 1
+    REDUCE = {"amin": True, "min": True, "amax": False, "max": False}
+    if not (isinstance(c, ast.Call) and isinstance(c.func, ast.Attribute) and c.func.attr in REDUCE and len(c.args) == 1
+            and isinstance(c.func.value, ast.Name) and c.func.value.id in ("np", "numpy")
             and isinstance(c.args[0], ast.Name) and c.args[0].id == yv[0].targets[0].value.id
             and [(k.arg, getattr(k.value, "value", None)) for k in c.keywords] == [("axis", 1)]):
-        raise U("EO: self._y_min is not np.amin(y_values, axis=1)")
+        raise U("EO: self._y_min is not np.amin / np.amax (y_values, axis=1)")
+    reduce_is_min = REDUCE[c.func.attr]
     # objective_values = np.around(METRIC_DICT[self.objective](counts), d)
     ov = a.get("objective_values")
     if not (isinstance(ov, ast.Call) and isinstance(ov.func, ast.Attribute) and ov.func.attr == "around" and len(ov.args) == 2
             and ast.unparse(ov.args[0]) == "METRIC_DICT[self.objective](counts)"):
         raise U("EO: objective_values is not np.around(METRIC_DICT[self.objective](counts), d)")
     decimals = _int(ov.args[1], "np.around decimals")
-    ib, series = _idxmax(fn, lambda t: isinstance(t, ast.Name) and t.id == "i_best_EO")
+    ib, series, is_max = _idxmax(fn, lambda t: isinstance(t, ast.Name) and t.id == "i_best_EO")
     if series != "objective_values":
         raise U("EO: idxmax is not taken of objective_values")
     for attr, arr in (("_x_best", "_x_grid"), ("_y_best", "_y_min")):
@@ -325,9 +330,26 @@ def _eo(tree):
         return None
     pi = _expr(ea[pvar], atom_pi)
     kw = _bunch(fn, rr, ["p_ignore", "prediction_constant"])
-    if not (isinstance(kw["p_ignore"], ast.Name) and kw["p_ignore"].id == pvar and _self(kw["prediction_constant"], "_x_best")):
-        raise U("EO: Bunch(p_ignore=p_ignore, prediction_constant=self._x_best) changed")
-    return {"grid": grid, "nneg": nneg, "decimals": decimals, "diag": diag, "pi": pi}
+    if not (isinstance(kw["p_ignore"], ast.Name) and kw["p_ignore"].id == pvar):
+        raise U("EO: Bunch(p_ignore=p_ignore, ...) changed")
+
+    # prediction_constant: an arithmetic expression in self._x_best / self._y_best (both pinned above to the grid value / the
+    # minimal TPR at the best index) and numerals; emitted as `predictionConstant`
+    def atom_pc(node):
+        if isinstance(node, ast.Attribute):
+            if _self(node, "_x_best"):
+                return "xbest"
+            if _self(node, "_y_best"):
+                return "ybest"
+            raise U(f"EO: unknown term {ast.unparse(node)} in prediction_constant")
+        if isinstance(node, ast.Name) and node.id in la and node.id not in (rr, pvar):
+            return _expr(la[node.id], atom_pc)          # a local of the rule loop, through its single assignment
+        if isinstance(node, (ast.Name, ast.Call, ast.Subscript)):
+            raise U(f"EO: unknown term {ast.unparse(node)} in prediction_constant")
+        return None
+    pc = _expr(kw["prediction_constant"], atom_pc)
+    return {"grid": grid, "nneg": nneg, "decimals": decimals, "diag": diag, "pi": pi, "is_max": is_max,
+            "reduce_is_min": reduce_is_min, "pc": pc}
 
 
 def _reformat(tree):
@@ -403,6 +425,10 @@ def _r(v):
     return f"({v} : Rat)"
 
 
+def _b(v):
+    return "true" if v else "false"
+
+
 @translate.lifter
 def lift_thresholdfit(repo):
     tree = parse_top(repo)
@@ -421,9 +447,14 @@ def lift_thresholdfit(repo):
     L.append(f"/-- start value of every entry of `overall_tradeoff_curve` (`c * x_grid`) -/\ndef objInit (x : Rat) : Rat := ({_r(sm['c0'])} * x)")
     L.append(f"/-- `overall_tradeoff_curve += ...` (p = the group's frequency, y = its interpolated objective) -/")
     L.append(f"def objAccum (acc p y : Rat) : Rat := (acc + {sm['acc']})")
-    L.append("/-- the best grid index is `Series.idxmax()`: the FIRST maximum (both methods) -/\ndef bestIsIdxmax : Bool := true")
+    L.append("/-- the best grid index of the simple-constraint method: `Series.idxmax()` = the FIRST maximum (true) or `.idxmin()` = the "
+             "FIRST minimum (false) -/\ndef bestIsIdxmax : Bool := " + _b(sm["is_max"]))
+    L.append("/-- the same for `i_best_EO` -/\ndef eoBestIsIdxmax : Bool := " + _b(eo["is_max"]))
+    L.append("/-- `self._y_min`: `np.amin(y_values, axis=1)` = the minimum over the groups at every grid point (true), `np.amax` (false) -/"
+             "\ndef yMinIsAmin : Bool := " + _b(eo["reduce_is_min"]))
     L.append(f"/-- equalized odds: `n_negative` -/\ndef eoNNeg (n npos : Rat) : Rat := {eo['nneg']}")
-    L.append(f"/-- `np.around(objective, {eo['decimals']})` before the arg-max (NOT modelled: exact arg-max) -/\ndef aroundDecimals : Nat := {eo['decimals']}")
+    L.append(f"/-- `np.around(objective, {eo['decimals']})` before the arg-max (`Threshold.aroundModel`: the identity on the exact model) -/\ndef aroundDecimals : Nat := {eo['decimals']}")
+    L.append(f"/-- `prediction_constant` of every rule (xbest = `self._x_best`, ybest = `self._y_best`) -/\ndef predictionConstant (xbest ybest : Rat) : Rat := {eo['pc']}")
     L.append("/-- `roc_result.y == roc_result.x`: the point is on the ROC diagonal, p_ignore is the constant below -/")
     L.append(f"def pIgnoreOnDiagonal (x y : Rat) : Bool := decide (y = x)\ndef pIgnoreDiagValue : Rat := {_r(eo['diag'])}")
     L.append(f"/-- otherwise (ybest = the pointwise minimum TPR at x_best) -/\ndef pIgnoreValue (x y ybest : Rat) : Rat := {eo['pi']}")
